@@ -24,8 +24,10 @@ func findDuplicateSlot(slots []*SlotStmt) (string, int) {
 	}
 
 	// find the first slot name that has a count greater than 1
-	for name, times := range counts {
-		if times > 1 {
+	for _, slot := range slots {
+		name := slot.Name.Value
+
+		if times := counts[name]; times > 1 {
 			return name, times
 		}
 	}
